@@ -717,13 +717,21 @@ class _Gen:
             elif p["k"] == "index":
                 lo, hi = p["range"]
                 v = r.choice([lo, hi])
+                cfg_idx = [f"{cn}.{f}" for cn, fields in self.configs for f, t in fields if t == "index"] if self.kn.p_config > 0 else []
+                if cfg_idx and r.random() < 0.25:
+                    v = r.choice(cfg_idx)  # accepted only when the callee's assertions hold for the field's value
                 if self.twin_budget and r.random() < 0.3:
                     self.twin_budget = 0
                     v = hi + 1
                     self.twin_site = f"callee index argument {v} violates assertion <= {hi}"
                 out.append(str(v))
             elif p["k"] == "bool":
-                out.append(r.choice(self.bools) if self.bools else r.choice(["True", "False"]))
+                cfg_bools = [f"{cn}.{f}" for cn, fields in self.configs for f, t in fields if t == "bool"] if self.kn.p_config > 0 else []
+                if cfg_bools and r.random() < 0.45:
+                    # a control-typed configuration field passed directly as an argument: a read of the field
+                    out.append(r.choice(cfg_bools))
+                else:
+                    out.append(r.choice(self.bools) if self.bools else r.choice(["True", "False"]))
             else:
                 out.append(a)
         self.emit(ind, f"{cal['name']}({', '.join(out)})")
@@ -796,6 +804,11 @@ def _gen_callee(rng, kn: Knobs, idx, configs):
         sig.append("off: index")
         preds.append("off >= 0")
         preds.append("off <= 2")
+    boolp = None
+    if rng.random() < (0.45 if kn.p_config > 0 else 0.15):
+        boolp = "go"
+        params.append({"k": "bool", "name": "go"})
+        sig.append("go: bool")
     lines = ["@proc", f"def {name}({', '.join(sig)}):"]
     for p in preds:
         lines.append(f"    assert {p}")
@@ -824,6 +837,9 @@ def _gen_callee(rng, kn: Knobs, idx, configs):
     if idxp and rng.random() < 0.5:
         # use the index parameter in a guard
         lines.append("    " * ind + f"if {vs[0][0]} >= off:")
+        ind += 1
+    if boolp:
+        lines.append("    " * ind + f"if {boolp}:")
         ind += 1
     rhs = f" {rng.choice(['+', '*'])} ".join(terms)
     op = rng.choice(["=", "+=", "="])
